@@ -310,8 +310,9 @@ type c10Obj struct {
 	keep   func(c10Kept)
 	// scribble: the caller owns what it was given - in these histories every returned byte slice is overwritten
 	// with '*' right after it was rendered (instead of being kept for monitor (a)); later results must not change
-	scribble bool
-	pending  [][]byte
+	scribble     bool
+	pending      [][]byte
+	pendingLists [][]string // returned string lists, overwritten the same way
 }
 
 func (o *c10Obj) flushScribble() {
@@ -321,6 +322,12 @@ func (o *c10Obj) flushScribble() {
 		}
 	}
 	o.pending = nil
+	for _, l := range o.pendingLists {
+		for i := range l {
+			l[i] = "@overwritten-by-the-caller"
+		}
+	}
+	o.pendingLists = nil
 }
 
 func (o *c10Obj) keepErr(from string, err error) {
@@ -457,7 +464,9 @@ func (o *c10Obj) runJSchema(op, from string, st *c10Step) string {
 			return c10Err(err)
 		}
 		r := strings.Join(l, "\x01")
-		if o.keep != nil && l != nil {
+		if o.scribble && o.keep != nil {
+			o.pendingLists = append(o.pendingLists, l)
+		} else if o.keep != nil && l != nil {
 			o.keep(c10Kept{what: "UsedUserTypes list", label: o.in.label, from: from, render: func() string { return strings.Join(l, "\x01") }, snap: r})
 		}
 		return "L " + strconv.Itoa(len(l)) + " " + r
